@@ -33,14 +33,14 @@ def fd_variant(v):
 
 
 def fd_variants_for(schedule):
-    """which worlds a schedule is replayed in: urgent data exists on a TCP connection only, and only the select()
-    flavour is replayed with it (fdspawn(use_poll=True) registers POLLPRI, takes the urgent condition for
-    readability and then sits in a blocking os.read: a defect of the unchanged tree, reported, left out here)"""
+    """which worlds a schedule is replayed in: urgent data exists on a TCP connection only (select() and poll()
+    flavour: fdspawn(use_poll=True) used to register POLLPRI, take the urgent condition for readability and then sit
+    in a blocking os.read - repaired in /repo, see known_findings.json)"""
     urgent = any(x[0] == 'P' and x[1].startswith('PeerUrgent') for x in schedule)
     out = []
     for v in range(FD_VARIANTS):
         f = fd_variant(v)
-        if urgent and (f['kind'] != 'tcp' or f['use_poll']):
+        if urgent and f['kind'] != 'tcp':
             continue
         out.append(v)
     return out
@@ -567,7 +567,7 @@ def run_transport(ctx, pool, transport, include_blocked=False):
     what = {
         'pty': 'real pty child, select / poll alternately',
         'fd': 'every schedule on pipe / FIFO / pty / socketpair / TCP descriptor x select / poll x bytes / unicode (units = bytes of multi-byte '
-              'characters: reads end inside characters); %d replays with urgent data sent by the TCP peer (select flavour)' % nlab('PeerUrgent'),
+              'characters: reads end inside characters); %d replays with urgent data sent by the TCP peer (select and poll)' % nlab('PeerUrgent'),
         'socket': 'socketpair x bytes / unicode (recv() results that end inside a multi-byte character)',
         'popen': 'gated reader thread; %d replays in which the caller reaps the exited child (wait()) before / between reads' % nlab('Reap'),
     }[transport]
@@ -741,8 +741,6 @@ def run(ctx):
                     'peer actions are placed between system calls; races inside a single system call are the kernel\'s',
                     'PopenSpawn: the reader thread is gated (its os.read and queue.put wait for the schedule), the child is /bin/cat; it exits '
                     'without being reaped (waitid WNOWAIT), the caller reaps it with PopenSpawn.wait() where the model says so',
-                    'urgent data on a TCP descriptor is replayed with the select() flavour of fdspawn only: with use_poll=True the unchanged code '
-                    'takes POLLPRI for readability and blocks in os.read() (reported defect)',
                     'unicode mode: the model counts the bytes taken from the descriptor; the text returned is compared with the incremental '
                     'decoding of those bytes'],
         wall_s=ctx.wall(), violations=nviol)
